@@ -33,7 +33,22 @@ def r1_overrides(chk: Check) -> None:
         chk.decide(True if ok else (False if not stores else None), "C14.R1", gsk, "overrides -> strategy kwargs", "override entries are not stored under their own location", gsk.loc(lp))
         chk.decide(bool(kwv) and bool(stores), "C14.R1", gsk, "get_strategy_kwargs returns the collected kwargs", "collected overrides are not returned", gsk.loc())
     hdr = [s for s in walk_body(gsk.node) if isinstance(s, ast.Assign) and isinstance(s.targets[0], ast.Subscript) and const_str(s.targets[0].slice) == "headers"]
-    chk.decide(bool(hdr) and "network.headers" in unparse(hdr[0].value, 300), "C14.R1", gsk, "configured headers -> strategy kwargs['headers']", "user --header values are not passed to generation: a generated header of the same name is not replaced", gsk.loc())
+    def _feeds(expr: ast.AST | None, depth: int = 0, seen: frozenset[str] = frozenset()) -> bool:
+        """`network.headers` reaches expr through plain locals (assignments and `.update(...)` on them)."""
+        if expr is None or depth > 4:
+            return False
+        if "network.headers" in unparse(expr, 400):
+            return True
+        for nm in names_in(expr) - seen:
+            srcs = [v for _, v in assignments_to(gsk.node, nm) if v is not None]
+            srcs += [a for c in body_calls(gsk) if last_attr(c) == "update" and isinstance(c.func, ast.Attribute) and dotted(c.func.value) == nm for a in c.args]
+            if any(_feeds(v, depth + 1, seen | {nm}) for v in srcs):
+                return True
+        return False
+
+    mentions = "network.headers" in unparse(gsk.node, 4000)
+    linked = any(_feeds(s.value) for s in hdr)
+    chk.decide(True if linked else (False if not mentions else None), "C14.R1", gsk, "configured headers -> strategy kwargs['headers']", "user --header values are not passed to generation: a generated header of the same name is not replaced", gsk.loc())
     wt = P.func(f"{UNIT}:worker_task")
     cfgs = [c for c in body_calls(wt) if last_attr(c) == "HypothesisTestConfig"]
     v = kwarg(cfgs[0], "as_strategy_kwargs") if cfgs else None
@@ -351,5 +366,9 @@ def rfwd_forwarding(chk: Check) -> None:
     shared.forwarding_rule(chk, "C14.FWD", ('auths.py:', 'generation/case.py:Case.call', 'generation/case.py:Case.call_and_validate'), "auth / request options", 3)
 
 
+def r7_merge(chk: Check) -> None:
+    shared.keyed_lost_update_rule(chk, "C14.R7", "strategy kwargs collected from overrides and from configured headers", 1)
+
+
 def rules(tier: str) -> list:  # type: ignore[type-arg]
-    return [r1_overrides, r2_network_config, r3_precedence, r4_set_on_case, r5_lock, r6_strip_auth, rfwd_forwarding]
+    return [r1_overrides, r2_network_config, r3_precedence, r4_set_on_case, r5_lock, r6_strip_auth, r7_merge, rfwd_forwarding]
